@@ -73,6 +73,11 @@ def countL : List Tok → Nat × List Tok
   | .ch c true :: t => if c = 'l' ∨ c = 'L' then let r := countL t; (r.1 + 1, r.2) else (0, .ch c true :: t)
   | t => (0, t)
 
+/-- `em_width()` and `ex_height()` of the state the harness runs (10pt and 4.30554pt, as cmr10;
+deliberately different from each other and from texlang's default of 12pt for both). -/
+def emWidth : Int := 655360
+def exHeight : Int := 282168
+
 def physUnits : List (String × TUnit) :=
   [("pt", .pt), ("in", .inch), ("pc", .pc), ("cm", .cm), ("mm", .mm), ("bp", .bp), ("dd", .dd), ("cc", .cc), ("sp", .sp)]
 
@@ -89,10 +94,10 @@ def parseUnit (glue : Bool) (t : List Tok) : UnitSpec × List Tok :=
   | some r => let l := countL r; (.fil l.1, optSpace l.2)
   | none =>
     match keyword "em".toList t with
-    | some r => (.internal 786432, optSpace r)
+    | some r => (.internal emWidth, optSpace r)
     | none =>
       match keyword "ex".toList t with
-      | some r => (.internal 786432, optSpace r)
+      | some r => (.internal exHeight, optSpace r)
       | none =>
         let t := (keyword "true".toList t).getD t
         match firstUnit physUnits t with
